@@ -226,6 +226,10 @@ def run_group(pid, g, scratch, tier, repo, keep_dir=None, trace=False, only_prop
         if os.environ.get("SSW_TIMEOUT"):
             tmo = int(os.environ["SSW_TIMEOUT"])
         backends = g.get("backends", [[], ["--sat-solver", "cadical"]])
+        if trace:
+            # counterexample extraction is best effort: one back end, short time limit
+            backends = backends[:1]
+            tmo = min(tmo, 150)
         out = None
         last_err = ""
         for be in backends:
